@@ -122,6 +122,11 @@ def build() -> Check:
             for e in t.kinds("OPAQUE"):
                 if e.data["fn"].endswith("from_operation_identifier") and "attempt" in e.data["kwargs"]:
                     pass
+            if st == "READY" and not [x for x in evs if x.kind == "CKPT" and x.data.get("outcome") != "ok"]:
+                # READY is the backend saying "the retry timer has fired": this call runs the next attempt. A call that only suspends (READY taken for
+                # PENDING) parks a step nobody will wake again
+                if not user_events(t, "user") and is_suspend(prog, t):
+                    bad3.append(("a step found READY (its retry timer has fired) suspends without running the attempt", t))
             if st == "PENDING":
                 if user_events(t, "user") or user_events(t, "strategy") or t.kinds("CKPT") or not is_suspend(prog, t):
                     bad3.append(("a step waiting for its retry timer must only suspend", t))
@@ -133,6 +138,8 @@ def build() -> Check:
         ck.ob("R2.decision-implies-effect", construct, not bad2, (bad2[0][0] + ": " + trace_sig(bad2[0][1])) if bad2 else "", cell=st)
         if st == "PENDING":
             ck.ob("R3.pending-suspends", construct, not bad3, (bad3[0][0] + ": " + trace_sig(bad3[0][1])) if bad3 else "", cell=st)
+        if st == "READY":
+            ck.ob("R3.ready-runs-the-attempt", construct, not bad3, (bad3[0][0] + ": " + trace_sig(bad3[0][1])) if bad3 else "", cell=st)
     ck.floor("strategy_consultations", n_strat, 8)
 
     # R1 every failure of the step function reaches the retry strategy. One family is let through on purpose: ExecutionError ("fatal - e.g. checkpoint
